@@ -156,6 +156,11 @@ type script struct {
 	// envelope fatEnv (1-based, 0 = none) is padded to exactly fatSize wire octets (TSIG included) with a filler TXT
 	// record in the additional section: the answer section, hence the transfer, is unchanged
 	fatEnv, fatSize int
+	// the consumer of the channel pauses for `pause' after it received its slowAfter-th envelope (0 = never);
+	// the transfer runs with ReadTimeout = readTimeout (0 = default)
+	slowAfter   int
+	pause       time.Duration
+	readTimeout time.Duration
 }
 
 // macShapes: fault kind -> number of MAC octets kept, given the length of the full MAC
@@ -268,6 +273,10 @@ func build(s *script, queryOctets []byte) []envelope {
 			}
 			prevMAC = mac
 			e.Sig = []int{key, i - 1, timers, 1}
+		}
+		if has(s.faults, "hdrid", i) { // the header ID rewritten on the way, the TSIG's original ID untouched: the MAC still verifies
+			binary.BigEndian.PutUint16(out, qm.Id+1)
+			e.ID = false
 		}
 		if has(s.faults, "alter", i) {
 			out[3] ^= 0x80 // the RA flag: the message still parses, its content is no longer what was signed
@@ -395,7 +404,7 @@ func run(s *script) (envs []envelope, frames [][]byte, obs observation, fatal st
 		}
 		c.EOF = s.eof
 	}
-	tr := &dns.Transfer{Conn: &dns.Conn{Conn: fc}}
+	tr := &dns.Transfer{Conn: &dns.Conn{Conn: fc}, ReadTimeout: s.readTimeout}
 	if s.tsig {
 		tr.TsigSecret = map[string]string{keyName: secretGood}
 	}
@@ -404,6 +413,7 @@ func run(s *script) (envs []envelope, frames [][]byte, obs observation, fatal st
 		return envs, frames, obs, "Transfer.In: " + err.Error()
 	}
 	obs.Delivered = [][]rec{}
+	got := 0
 	guard := time.After(30 * time.Second)
 	for {
 		select {
@@ -421,6 +431,9 @@ func run(s *script) (envs []envelope, frames [][]byte, obs observation, fatal st
 				obs.Err, obs.ErrText = true, e.Error.Error()
 			default:
 				obs.Delivered = append(obs.Delivered, fromRRs(e.RR))
+			}
+			if got++; got == s.slowAfter {
+				time.Sleep(s.pause) // a slow consumer: the transfer has to wait for it
 			}
 		case <-guard:
 			return envs, frames, obs, "hang"
@@ -461,7 +474,15 @@ func chunksOf(R []rec, lens []int) [][]rec {
 func replay(path string) {
 	var sum hx.Summary
 	seen := map[string]bool{}
+	var slow []*vec
+	nslow := 40
+	if hx.Thorough() {
+		nslow = 400
+	}
 	hx.ReadNDJSON(path, func(i int, v *vec) {
+		if len(slow) < nslow && len(v.Delivered) >= 1 && !v.Ambig && i%(97+len(slow)) == 0 {
+			slow = append(slow, v)
+		}
 		if v.Kind != "xfr" {
 			hx.Die("unknown vector kind %q", v.Kind)
 		}
@@ -518,7 +539,10 @@ func replay(path string) {
 		if every := 151; (hx.Thorough() && i%41 == 0) || i%every == 0 {
 			k := len(v.Lens)
 			for _, pos := range uniq([]int{1, (k + 1) / 2, k}) {
-				for _, size := range []int{4095, 4096, 4097, 4098, 16384, 65000} {
+				for _, size := range []int{4095, 4096, 4097, 16383, 16384, 16385, 65534, 65535} {
+					if size > 60000 && pos != (i/151)%k+1 { // the largest envelopes at one position per behaviour
+						continue
+					}
 					s.fatEnv, s.fatSize = pos, size
 					s.seg = []string{"", "prefix", "byte"}[(pos+size)%3]
 					if size > 20000 {
@@ -533,6 +557,35 @@ func replay(path string) {
 			sum.Sample(v)
 		}
 	})
+	// slow consumers (the consumer is a process of its own in MC_Xfr: whatever its pace it gets every envelope and the
+	// error): a sample of behaviours with ReadTimeout 40 ms and a consumer that pauses 300 ms after its k-th envelope, for
+	// every k; the runs wait on the clock, so they go side by side
+	var wg sync.WaitGroup
+	var mu sync.Mutex
+	for _, v := range slow {
+		for k := 1; k <= len(v.Delivered); k++ {
+			s := script{mode: v.Mode, q: [2]int{v.Q[0], v.Q[1]}, chunks: chunksOf(v.R, v.Lens), tsig: v.Tsig, tail: v.Tail, eof: k%2 == 0,
+				slowAfter: k, pause: 300 * time.Millisecond, readTimeout: 40 * time.Millisecond}
+			if v.Fault.Kind != "none" {
+				s.faults = []fault{v.Fault}
+			}
+			wg.Add(1)
+			go func(v *vec, s script) {
+				defer wg.Done()
+				var local hx.Summary
+				if p := hx.Catch(func() { one(v, &s, &local) }); p != "" {
+					local.Mis("xfr/in-"+v.Mode+":panic", "panic: "+p, v)
+				}
+				mu.Lock()
+				sum.Evaluations++
+				for _, m := range local.Mismatches {
+					sum.Mis(strings.Replace(m.Key, "xfr/in-", "xfr/in-slow-consumer-", 1), fmt.Sprintf("consumer pausing after envelope %d: %s", s.slowAfter, m.What), m.Case)
+				}
+				mu.Unlock()
+			}(v, s)
+		}
+	}
+	wg.Wait()
 	sum.Nontrivial = len(seen)
 	sum.Print()
 }
@@ -727,7 +780,7 @@ func recordIn(out string, n int) {
 		k := len(s.chunks)
 		kinds := []string{"nosoa", "rcode", "id", "close", "cut"}
 		if s.tsig {
-			kinds = append(kinds, "alter", "unsign", "wrongkey", "drop", "dup", "swap", "macempty", "mac1", "mac9", "mac10", "machalf", "macminus1", "macext")
+			kinds = append(kinds, "alter", "unsign", "wrongkey", "drop", "dup", "swap", "hdrid", "macempty", "mac1", "mac9", "mac10", "machalf", "macminus1", "macext")
 		}
 		for nf := []int{0, 0, 1, 1, 1, 2}[rnd.Intn(6)]; nf > 0; nf-- {
 			f := fault{Kind: kinds[rnd.Intn(len(kinds))], Pos: 1 + rnd.Intn(k)}
@@ -758,10 +811,13 @@ func recordIn(out string, n int) {
 		s.segAt = 1 + rnd.Intn(300)
 		if rnd.Intn(4) == 0 {
 			s.fatEnv = 1 + rnd.Intn(k)
-			s.fatSize = []int{4095, 4096, 4097, 5000, 16384, 40000, 65000}[rnd.Intn(7)]
+			s.fatSize = []int{4095, 4096, 4097, 5000, 16383, 16384, 16385, 40000, 65534, 65535}[rnd.Intn(10)]
 			if s.seg == "byte" && s.fatSize > 20000 {
 				s.seg = "prefix"
 			}
+		}
+		if rnd.Intn(25) == 0 { // a consumer that pauses well beyond the transfer's read timeout
+			s.slowAfter, s.pause, s.readTimeout = 1+rnd.Intn(k), 250*time.Millisecond, 40*time.Millisecond
 		}
 		envs, _, obs, fatal := run(&s)
 		sum.Evaluations++
@@ -770,7 +826,7 @@ func recordIn(out string, n int) {
 			continue
 		}
 		w.Emit(inEvent{Ev: "in", I: c + 1, Mode: s.mode, Q: []int{s.q[0], s.q[1]}, Tsig: s.tsig, EOF: s.eof, Envs: envs, Obs: obs,
-			Desc: fmt.Sprintf("%s, %d records in %d envelopes, faults %v, tail %v, segmentation %s@%d, envelope %d padded to %d octets", desc, len(R), len(lens), s.faults, s.tail, s.seg, s.segAt, s.fatEnv, s.fatSize)})
+			Desc: fmt.Sprintf("%s, %d records in %d envelopes, faults %v, tail %v, segmentation %s@%d, envelope %d padded to %d octets, consumer pausing after envelope %d", desc, len(R), len(lens), s.faults, s.tail, s.seg, s.segAt, s.fatEnv, s.fatSize, s.slowAfter)})
 	}
 	sum.Nontrivial = w.N
 	sum.Print()
